@@ -169,7 +169,7 @@ func quotes(measure []byte, blob []byte, tag string) []quoteSpec {
 func main() {
 	r := mc.NewRun("C16")
 	defer kmfx.Cleanup()
-	r.Rule("E1/E5 full product: event log {not configured, unreadable, raw locator, variable locator, URI locator, local-path locator, wrong manufacturer, raw+URI, URI+variable, wrong-raw+URI, variable that cannot be read (absent, denied) alone and with a URI locator in both orders, local-path+URI, 72 logs of several 4 KiB blocks whose deciding locator follows 60 foreign events at every byte alignment} x supplied quote {empty, 7 formats with/without the endorsement in the certificate table, cert table only, garbage} x provider {none, quote with/without extras, error} x getter {nil, ok, error} x forced fetch; object names over all measurements of <=2 bytes and 48-byte one-bit neighbours x {3 SEV family ids, TDX}; efivarfs names of <=3 (thorough 4) UCS-2 units over {a . / \\ - NUL} x 3 GUIDs under a scratch root with symlinks; emitted events for a menu of digests; non-trivial = distinct (sources, forced) combinations that returned an endorsement")
+	r.Rule("E1/E5 full product: event log {not configured, unreadable, raw locator, variable locator, URI locator, local-path locator, wrong manufacturer, raw+URI, URI+variable, wrong-raw+URI, variable that cannot be read (absent, denied) alone and with a URI locator in both orders, local-path+URI, 72 logs of several 4 KiB blocks whose deciding locator follows 60 foreign events at every byte alignment, logs beyond 64 KiB (520 foreign events, 192 alignments; quick every fourth) with a reduced set of the other sources} x supplied quote {empty, 7 formats with/without the endorsement in the certificate table, cert table only, garbage} x provider {none, quote with/without extras, error} x getter {nil, ok, error} x forced fetch; object names over all measurements of <=2 bytes and 48-byte one-bit neighbours x {3 SEV family ids, TDX}; efivarfs names of <=3 (thorough 4) UCS-2 units over {a . / \\ - NUL} x 3 GUIDs under a scratch root with symlinks; emitted events for a menu of digests; non-trivial = distinct (sources, forced) combinations that returned an endorsement")
 	scratch := kmfx.ScratchRoot()
 	write := func(name string, b []byte) string {
 		p := filepath.Join(scratch, name)
